@@ -49,5 +49,5 @@ CONF = dict(
  'a model schedule plus the property oracle'),
     timeout_quick=600,
     timeout_thorough=3000,
-    min_cases={'collect': 2101, 'history': 1050, 'race': 1500},
+    min_cases={'collect': 2102, 'history': 1050, 'race': 1530, 'sync.round': 751},
 )
